@@ -178,6 +178,9 @@ def run(rep: common.Report, tier: str, seed: int, replay=None) -> int:
     specs.append(dict(shape="box", holes=2, terminals=0, smooth=0, max_edge_length=0.9, xi=1.0, moved=(0.6, 0.8)))
     specs.append(dict(shape="box", holes=1, terminals=2, smooth=0, max_edge_length=0.9, xi=0.5, remesh_at=(20.0, 5.0)))
     specs.append(dict(shape="ellipse", holes=2, terminals=0, smooth=2, max_edge_length=0.9, xi=0.5, remesh_at=(-7.5, 31.0)))
+    specs.append(dict(shape="ellipse", holes=1, terminals=0, smooth=0, max_edge_length=0.9, xi=0.5, remesh_at=(7.0, -3.0), no_refine=1.0))
+    specs.append(dict(shape="box", holes=0, terminals=2, smooth=0, max_edge_length=0.9, xi=0.5, remesh_at=(-4.0, 9.0), no_refine=0.0))
+    specs.append(dict(shape="union", holes=1, terminals=0, smooth=2, max_edge_length=0.9, xi=0.5, remesh_at=(12.0, 12.0), no_refine=1.0))
     texts, infos = [], []
     for mi, spec in enumerate(specs):
         try:
@@ -202,8 +205,18 @@ def run(rep: common.Report, tier: str, seed: int, replay=None) -> int:
         if spec.get("remesh_at"):
             # feature pair holes + a device that sits far from the origin: moved (a mesh-less copy) and meshed THERE
             far = dev.translate(dx=spec["remesh_at"][0], dy=spec["remesh_at"][1])
+            mel_far = spec["max_edge_length"] * spec.get("scale", 1.0)
+            if spec.get("no_refine"):
+                # max_edge_length <= 0 is documented: "the number of mesh points is determined solely by the density of points in
+                # the film and holes" (no refinement).  Only used where the same device meshes that way at the origin.
+                mel_far = spec["no_refine"] - 1.0          # 0 or a negative number
+                try:
+                    dev.copy(with_mesh=False).make_mesh(max_edge_length=mel_far, smooth=spec["smooth"])
+                except Exception:  # noqa: BLE001
+                    rep.coverage["no_refine_devices_skipped"] = rep.coverage.get("no_refine_devices_skipped", 0) + 1
+                    continue
             try:
-                far.make_mesh(max_edge_length=spec["max_edge_length"] * spec.get("scale", 1.0), smooth=spec["smooth"])
+                far.make_mesh(max_edge_length=mel_far, smooth=spec["smooth"])
                 dev = far
             except Exception as e:  # noqa: BLE001
                 rep.violation(f"a device that meshes at the origin could not be meshed after a translation: {type(e).__name__}: {e}"[:200],
